@@ -6,6 +6,9 @@ mod huff0_decoder;
 pub use huff0_decoder::*;
 pub mod huff0_encoder;
 
+#[cfg(feature = "verif_hooks")]
+pub mod verif_huf;
+
 /// Only needed for testing.
 ///
 /// Encodes the data with a table built from that data
